@@ -381,7 +381,9 @@ CLEANUP:
 	/* free the last allocated basis, and if we wanted to save it, do so */
 	if (basis)
 	{
-		if (writebasis)
+		/* there is an optimal basis to save only if the problem was solved to
+		 * optimality; an INFEASIBLE or UNBOUNDED answer is not an error */
+		if (writebasis && rval == 0 && status == QS_LP_OPTIMAL)
 			rval = mpq_QSwrite_basis (p_mpq, 0, writebasis);
 	}
 	mpq_QSfree_basis (basis);
